@@ -298,6 +298,33 @@ pub fn explore_rule(ctx: &Ctx, gi: usize, ri: usize, rep: &mut Report, note: &dy
     rep.grammars.insert(e.id.to_string());
     rep.rules += 1;
     rep.max_len_done = rep.max_len_done.max(ctx.len_for(e));
+    // Owning nondeterminism: the complete observation of the first cases of every rule is taken twice
+    // and compared; a difference is reported under the running lens.
+    if ctx.opts.only_input.is_none() && !matches!(ctx.opts.lens.as_str(), "C15" | "C16" | "C17") {
+        let g = &ctx.grammars[gi];
+        for input in inputs_for(ctx, e, 0).iter().take(12) {
+            if ill_founded(g, ri, input) {
+                continue;
+            }
+            let case = Case {
+                ctx,
+                gi,
+                ri,
+                input,
+                form: Form::Str,
+                a: 0,
+                b: input.len(),
+                init: &[],
+            };
+            note(&case.id());
+            let w = what::PP | what::PF | what::CP | what::CF | what::ERRTEXT | what::DEBUG | what::WP;
+            let (a, b) = (typed(e, ri, &case.req(w)), typed(e, ri, &case.req(w)));
+            rep.determinism_checked += 1;
+            if a != b {
+                rep.violation(case.violation("nondeterministic-observation", "the same observation twice".into(), "two different observations".into(), String::new()));
+            }
+        }
+    }
     match ctx.opts.lens.as_str() {
         "C01" => c01_c02(ctx, gi, ri, rep, note, false),
         "C02" => c01_c02(ctx, gi, ri, rep, note, true),
